@@ -96,7 +96,7 @@ def run(ctx):
     else:
         plan = [('c12G', 1, 1, 0, None, None, ['plain', 'all+ac'], 2500),
                 ('c12g', 1, 1, 0, None, None, ['plain', 'jol', 'rr', 'udf', 'all', 'plain+ac', 'all+ac'], 400),
-                ('c12h', 4, 1, 1, None, None, ['plain', 'udf', 'jol+ac', 'all'], 6000),
+                ('c12h', 4, 1, 1, None, None, ['plain', 'udf', 'jol+ac', 'all'], 12000),
                 ('c12s', 12, 2, 2, 300, 13, ['plain', 'all', 'rr+ac'], 3000)]
     stats_list = []
     hists = []
